@@ -75,6 +75,12 @@ def main():
     hyg = vlib.hygiene()
     if hyg:
         ctx.brk("hygiene", "; ".join(hyg[:20]))
+    coqchk = None
+    if tier == "thorough" and props["ok"]:
+        # independent re-check of the compiled property file and everything it depends on
+        coqchk = vlib.coqchk(pid)
+        if not coqchk["ok"]:
+            ctx.brk("coqchk", coqchk["output"])
 
     # 3. builds against the current working tree
     ok, out = vlib.build_harness()
@@ -154,6 +160,8 @@ def main():
         "known_findings_reported": known_lines,
         "explanation": getattr(mod, "EXPLANATION", ""),
     }
+    if coqchk is not None:
+        cov["coqchk"] = {"cmd": coqchk["cmd"], "axioms": coqchk["axioms"], "summary": coqchk["summary"], "wall_s": coqchk["wall_s"]}
     cov.update(extra)
     level = getattr(mod, "LEVEL", "proof")
     if level == "translation_validation":
